@@ -1,5 +1,6 @@
 //! `run` engine: whole programs through run_program under several configurations.
 //!   run record --profile P --seed S --n N --out trace.ndjson
+//!   run replay --in cases.ndjson --out mismatches.ndjson      (cases of spec/MCInterp.tla, see replay_main)
 //! Every case (program + environment) is run as several VARIANTS (see the profiles);
 //! each run is written as
 //!   {"ev":"begin",case,variant,dialect,flags,budget,prog,env,al:{atoms,pairs,heap,limit},wit:[..]}
@@ -549,6 +550,9 @@ impl PG<'_> {
         if c < 22 && self.crypto {
             return self.crypto_expr();
         }
+        if c < 26 {
+            return self.computed_op_expr();
+        }
         let op = if self.newer && self.r.chance(1, 6) { *self.r.pick(NEWER_OPS) } else { *self.r.pick(CLASSIC_OPS) };
         let arity = match op {
             3 => 3,
@@ -713,6 +717,111 @@ impl PG<'_> {
             1 => list_json(&[atom_json(&[13]), inner]),      // strlen of the (possibly replaced) result
             2 => list_json(&[atom_json(&[8]), inner]),       // fail afterwards
             _ => inner,
+        }
+    }
+
+    /// (a (c OPEXPR (q . ARGS)) ENV): the operator atom is COMPUTED at run time, so it may be stored as heap
+    /// bytes (substr of a longer atom), as the same inline node (one-node concat) or as a small integer (+)
+    fn computed_op_expr(&mut self) -> Value {
+        let op = *self.r.pick(&[16u8, 17, 13, 4, 9, 11, 14, 18, 3, 5, 32, 1, 2]);
+        let opexpr = match self.r.below(5) {
+            0 => list_json(&[atom_json(&[12]), q(atom_json(&[0x00, op])), q(int_atom(1))]),
+            1 => list_json(&[atom_json(&[12]), q(atom_json(&[0xaa, op, 0xbb])), q(int_atom(1)), q(int_atom(2))]),
+            2 => list_json(&[atom_json(&[14]), q(atom_json(&[op]))]),
+            3 => list_json(&[atom_json(&[16]), q(int_atom(op as i64 - 1)), q(int_atom(1))]),
+            _ => list_json(&[atom_json(&[14]), q(atom_json(&[])), q(atom_json(&[op])), q(atom_json(&[]))]),
+        };
+        let n = self.r.below(4) as usize;
+        let mut args = vec![];
+        for _ in 0..n {
+            args.push(q(self.value()));
+        }
+        let built = list_json(&[atom_json(&[4]), opexpr, q(list_json(&args))]);
+        list_json(&[atom_json(&[2]), built, if self.r.chance(1, 2) { atom_json(&[1]) } else { q(self.value()) }])
+    }
+
+    /// constructs whose outcome depends on a restriction flag (C07)
+    fn restrict_expr(&mut self, depth: u32) -> Value {
+        match self.r.below(9) {
+            0 => {
+                let en = 1 + self.r.below(2) as usize;
+                let e = self.r.bytes(en);
+                let mut e2 = e.clone();
+                e2[0] &= 0x7f;
+                let mn = 1 + self.r.below(4) as usize;
+                let mut m = self.r.bytes(mn);
+                if m.iter().all(|x| *x == 0) { m[0] = 7; }
+                list_json(&[atom_json(&[60]), q(self.value()), q(atom_json(&e2)), q(atom_json(&m))])
+            }
+            1 => {
+                // division with an operand above the DISABLE_OP / LIMITS sizes
+                let n = *self.r.pick(&[257usize, 1025, 2049]);
+                let mut big = self.r.bytes(n);
+                big[0] &= 0x7f;
+                let op = *self.r.pick(&[19u8, 20, 61]);
+                if self.r.chance(1, 2) {
+                    list_json(&[atom_json(&[op]), q(atom_json(&big)), q(int_atom(self.r.range(1, 300)))])
+                } else {
+                    list_json(&[atom_json(&[op]), q(int_atom(self.r.range(1, 300))), q(atom_json(&big))])
+                }
+            }
+            2 => {
+                let n = *self.r.pick(&[256usize, 257]);
+                let mut big = self.r.bytes(n);
+                big[0] &= 0x7f;
+                list_json(&[atom_json(&[18]), q(atom_json(&big)), q(int_atom(self.r.range(-3, 300)))])
+            }
+            3 => {
+                // unknown operator with well-formed arguments
+                let op = *self.r.pick(&[&[15u8][..], &[0x40], &[0x01, 0x00], &[0x00, 0x3f, 0xc0], &[64], &[62]]);
+                list_json(&[atom_json(op), q(self.value()), q(atom_json(&self.r.bytes(3)))])
+            }
+            4 => {
+                // a guard whose declared cost / extension is written with a leading zero (CANONICAL_INTS)
+                self.guard(depth.min(1))
+            }
+            5 => {
+                // 48 bytes that are not a valid G1 point but have the compressed-point flag bits (RELAXED_BLS)
+                let mut b = self.r.bytes(48);
+                b[0] = (b[0] & 0x1f) | *self.r.pick(&[0x80u8, 0xa0]);
+                list_json(&[atom_json(&[51]), q(atom_json(&b))])
+            }
+            6 => {
+                let mut b = self.r.bytes(96);
+                b[0] = (b[0] & 0x1f) | *self.r.pick(&[0x80u8, 0xa0]);
+                list_json(&[atom_json(&[55]), q(atom_json(&b))])
+            }
+            7 => {
+                // nested guards up to beyond the LIMIT_SOFTFORK depth
+                let levels = *self.r.pick(&[3usize, 19, 20, 21]);
+                let mut inner = q(self.value());
+                for _ in 0..levels {
+                    let marker = atom_json(&[0x7f; 7]);
+                    inner = list_json(&[atom_json(&[36]), q(marker), q(int_atom(0)), q(inner), q(atom_json(&[]))]);
+                }
+                inner
+            }
+            _ => self.expr(depth),
+        }
+    }
+
+    /// operators that allocate, with operands sized so that an allocator pre-loaded near a cap trips (C13)
+    fn alloc_expr(&mut self) -> Value {
+        let x = |s: &mut Self| -> Value {
+            let n = s.r.below(24) as usize;
+            q(atom_json(&s.r.bytes(n)))
+        };
+        match self.r.below(10) {
+            0 => list_json(&[atom_json(&[14]), x(self)]),
+            1 => list_json(&[atom_json(&[14]), q(atom_json(&[])), x(self), q(atom_json(&[]))]),
+            2 => list_json(&[atom_json(&[14]), x(self), x(self)]),
+            3 => list_json(&[atom_json(&[14])]),
+            4 => list_json(&[atom_json(&[12]), x(self), q(int_atom(self.r.range(0, 3)))]),
+            5 => list_json(&[atom_json(&[11]), x(self)]),
+            6 => list_json(&[atom_json(&[4]), x(self), x(self)]),
+            7 => list_json(&[atom_json(&[13]), x(self)]),
+            8 => list_json(&[atom_json(&[20]), q(int_atom(self.r.range(-500, 500))), q(int_atom(self.r.range(1, 40)))]),
+            _ => list_json(&[atom_json(&[16]), x(self), x(self)]),
         }
     }
 
@@ -1063,6 +1172,21 @@ fn main() {
         })
         .collect() };
     let restrict = [0x0002u32, 0x0001, 0x0200, 0x0010, 0x0040, 0x0004];
+    // valid (pubkey, digest, signature) triples from the repository's op-tests
+    let mut secp: Vec<([u8; 3], Vec<u8>, Vec<u8>, Vec<u8>)> = vec![];
+    for (file, pre) in [("test-secp256k1.txt", [0x13u8, 0xd6, 0x1f]), ("test-secp256r1.txt", [0x1c, 0x3a, 0x8f])] {
+        if let Ok(text) = std::fs::read_to_string(format!("{repo}/op-tests/{file}")) {
+            for l in text.lines() {
+                let t: Vec<&str> = l.split_whitespace().collect();
+                if t.len() >= 6 && t[4] == "=>" && t[5] == "0" {
+                    let h = |x: &str| hex::decode(x.trim_start_matches("0x")).ok();
+                    if let (Some(a), Some(b), Some(c)) = (h(t[1]), h(t[2]), h(t[3])) {
+                        if secp.len() < 12 { secp.push((pre, a, b, c)); }
+                    }
+                }
+            }
+        }
+    }
 
     for case in 0..n {
         // ---- pick program, environment, base flags
@@ -1100,6 +1224,20 @@ fn main() {
                 let p = match profile.as_str() {
                     "C05" => pg.fast_expr(depth),
                     "C04" if pg.r.chance(1, 2) => pg.gc_expr(1),
+                    "C07" if pg.r.chance(1, 2) => pg.restrict_expr(depth),
+                    "C13" if pg.r.chance(1, 2) => pg.alloc_expr(),
+                    "C08" if pg.r.chance(1, 4) && !secp.is_empty() => {
+                        // the 4-byte secp opcodes and their aliases (same 3-byte multiplier, other last byte), on a valid triple
+                        let (pre, pk, msg, sig) = secp[pg.r.below(secp.len() as u64) as usize].clone();
+                        let last = *pg.r.pick(&[0x00u8, 0x00, 0x01, 0x3f, 0x40, 0x80, 0xc0, 0xff]);
+                        let mut sig2 = sig.clone();
+                        if pg.r.chance(1, 5) { sig2[5] ^= 1; }
+                        let call = list_json(&[atom_json(&[pre[0], pre[1], pre[2], last]), q(atom_json(&pk)), q(atom_json(&msg)), q(atom_json(&sig2))]);
+                        if pg.r.chance(1, 3) {
+                            let marker = atom_json(&[0x7f; 7]);
+                            list_json(&[atom_json(&[36]), q(marker), q(int_atom(pg.r.below(2) as i64)), q(call), q(atom_json(&[]))])
+                        } else { call }
+                    }
                     "C31" | "C08" => {
                         let g = pg.guard(depth);
                         if pg.r.chance(1, 2) { list_json(&[atom_json(&[4]), g, pg.expr(1)]) } else { g }
